@@ -12,7 +12,7 @@ use zv::*;
 #[serde(tag = "method", content = "parameters")]
 enum Method {
     #[serde(rename = "org.example.Get")]
-    Get { id: u32 },
+    Get { id: u32, pad: String },
 }
 
 #[derive(Debug, Deserialize)]
@@ -71,11 +71,13 @@ macro_rules! run_chain {
         let after = case["after"].as_u64().unwrap_or(0) as usize;
         let (sock, sh) = SSocket::new(parse_events(&case["events"]));
         let mut conn = Connection::new(sock);
+        let pads: Vec<usize> = case.get("pads").and_then(|p| p.as_array())
+            .map(|a| a.iter().map(|x| x.as_u64().unwrap() as usize).collect()).unwrap_or_default();
         let calls: Vec<Call<Method>> = flags
             .iter()
             .enumerate()
             .map(|(i, f)| {
-                let c = Call::new(Method::Get { id: i as u32 });
+                let c = Call::new(Method::Get { id: i as u32, pad: "p".repeat(*pads.get(i).unwrap_or(&0)) });
                 match f.as_str() {
                     "oneway" => c.set_oneway(true),
                     "more" => c.set_more(true),
